@@ -254,6 +254,43 @@ func focusedAggTraversalShapes() []string {
 		"match (u:NodeKind1) match (u)-[:EdgeKind1|EdgeKind2*0..3]->(g) where g.name = 'x' with u, count(g) as n return u, n order by n desc limit 5",
 		"match (u:NodeKind1) match (u)<-[:EdgeKind1*0..]-(g) with u, count(g) as n return u, n order by n desc limit 5",
 	)
+	// one query per guard of the planner's recognisers NEGATED (optimize.aggregateTraversalFinalProjection / SourceMatch / the traversal MATCH):
+	// sort direction, sort key, number of keys, SKIP, DISTINCT, no LIMIT, extra / repeated RETURN items, inline property maps instead of
+	// WHERE on source and target, WHERE on source and target, kinds absent, a second pattern, OPTIONAL — a dropped guard has a witness here
+	base := "match (u:NodeKind1) match (u)-[:EdgeKind1*1..]->(g:NodeKind2) with u, count(g) as n "
+	for _, tail := range []string{
+		"return u, n order by n asc limit 1", "return u order by n asc limit 1", "return u, n order by n ascending limit 2", "return u, n order by n limit 1",
+		"return u, n order by n desc limit 1", "return u order by n desc limit 1",
+		"return u, n order by id(u) limit 1", "return u, n order by id(u) desc limit 1", "return u, n order by n desc, id(u) asc limit 1",
+		"return u, n order by n desc skip 1 limit 1", "return distinct u, n order by n desc limit 1", "return u, n order by n desc",
+		"return u, n, id(u) order by n desc limit 1", "return u, u order by n desc limit 1", "return n order by n desc limit 1",
+		"return u as v, n as c order by c desc limit 1", "return u as v, n as c order by c asc limit 1",
+	} {
+		out = append(out, base+tail)
+	}
+	for _, head := range []string{
+		"match (u:NodeKind1 {name: 'x'}) match (u)-[:EdgeKind1*1..]->(g:NodeKind2)",
+		"match (u {a: 1}) match (u)-[:EdgeKind1*1..]->(g)",
+		"match (u:NodeKind1) where u.name = 'x' match (u)-[:EdgeKind1*1..]->(g:NodeKind2)",
+		"match (u:NodeKind1) match (u)-[:EdgeKind1*1..]->(g:NodeKind2 {name: 'y'})",
+		"match (u:NodeKind1) match (u)-[:EdgeKind1*1..]->(g {a: 2})",
+		"match (u:NodeKind1) match (u)-[:EdgeKind1*1..]->(g:NodeKind2) where g.name = 'y'",
+		"match (u:NodeKind1) match (u {name: 'x'})-[:EdgeKind1*1..]->(g:NodeKind2)",
+		"match (u) match (u)-[*1..]->(g)",
+		"match (u:NodeKind1), (v) match (u)-[:EdgeKind1*1..]->(g:NodeKind2)",
+		"optional match (u:NodeKind1) match (u)-[:EdgeKind1*1..]->(g:NodeKind2)",
+		"match (u:NodeKind1) optional match (u)-[:EdgeKind1*1..]->(g:NodeKind2)",
+		"match (u:NodeKind1) match (u)-[:EdgeKind1*1..{w: 1}]->(g:NodeKind2)",
+		"match (u:NodeKind1) match (u)-[:EdgeKind1]->(g:NodeKind2)",
+	} {
+		out = append(out, head+" with u, count(g) as n return u, n order by n desc limit 2", head+" with u, count(g) as n return u order by n desc limit 1")
+	}
+	out = append(out,
+		"match (u:NodeKind1) match (u)-[:EdgeKind1*1..]->(g:NodeKind2) with u, count(distinct g) as n return u, n order by n desc limit 2",
+		"match (u:NodeKind1) match (u)-[:EdgeKind1*1..]->(g:NodeKind2) with u, count(g) as n, u.name as x return u, n order by n desc limit 2",
+		"match (u:NodeKind1) match (u)-[:EdgeKind1*1..]->(g:NodeKind2) with distinct u, count(g) as n return u, n order by n desc limit 2",
+		"match (u:NodeKind1) match (u)-[:EdgeKind1*1..]->(g:NodeKind2) with u, count(g) as n where n > 1 return u, n order by n desc limit 2",
+	)
 	return out
 }
 
@@ -436,6 +473,15 @@ func focusedExactRangeShapes() []string {
 			"match p = (n)-["+r+"]->(m) return p",
 			"match (n)-[r"+r+"]->(m) return r",
 			"match (n)<-["+r+"]-(m) return n, m",
+		)
+	}
+	// range bounds at and beyond the int64 boundary: 2^63-1 is a legal bound, 2^63 and 10^20 are not integers of the language's range
+	for _, r := range []string{"*9223372036854775807", "*9223372036854775808", "*100000000000000000000", "*1..9223372036854775807", "*1..9223372036854775808",
+		"*..100000000000000000000", "*9223372036854775808..", "*100000000000000000000..100000000000000000000"} {
+		out = append(out,
+			"match (n)-["+r+"]->(m) return id(n), id(m)",
+			"match (n:NodeKind1)-[:EdgeKind1"+r+"]->(m) return n, m",
+			"match p = (n)<-["+r+"]-(m) return p",
 		)
 	}
 	// a PROPERTY MAP on the variable-length / exact-range relationship pattern (written directly after the range): every relationship of
